@@ -208,6 +208,9 @@ impl<S: WebSocket, T: TimestampProvider> Task<S, T> {
         // make up for it.
         interval.set_missed_tick_behavior(tokio::time::MissedTickBehavior::Skip);
         let mut last_ping_sent = T::now();
+        // The timeout counts from now on: the time between the creation of the multiplexor
+        // and the start of this task is not silence of the peer.
+        *self.last_pong_timestamp.lock() = last_ping_sent;
         loop {
             let _ = interval.tick().await;
             trace!("sending keepalive ping");
